@@ -2114,6 +2114,12 @@ impl<'a> Searcher<'a> {
                     }
                 }
                 VariantType::Int => {
+                    // a fractional literal (or expression value) must not be truncated to an integer
+                    let float_val = value.to_float();
+                    if float_val.fract() != 0.0 {
+                        return compare_floats(op, field_value.to_float(), float_val);
+                    }
+
                     let val = value.to_int();
                     let int_value = field_value.to_int();
                     match op {
@@ -2127,17 +2133,7 @@ impl<'a> Searcher<'a> {
                     }
                 }
                 VariantType::Float => {
-                    let val = value.to_float();
-                    let float_value = field_value.to_float();
-                    match op {
-                        Op::Eq | Op::Eeq => float_value == val,
-                        Op::Ne | Op::Ene => float_value != val,
-                        Op::Gt => float_value > val,
-                        Op::Gte => float_value >= val,
-                        Op::Lt => float_value < val,
-                        Op::Lte => float_value <= val,
-                        _ => false,
-                    }
+                    compare_floats(op, field_value.to_float(), value.to_float())
                 }
                 VariantType::Bool => {
                     let val = value.to_bool();
@@ -2262,5 +2258,18 @@ impl<'a> Searcher<'a> {
                 .as_ref()
                 .unwrap_or(self.default_config.is_video.as_ref().unwrap()),
         )
+    }
+}
+
+/// Compares two floating-point values with a comparison operator of the query language
+fn compare_floats(op: &Op, float_value: f64, val: f64) -> bool {
+    match op {
+        Op::Eq | Op::Eeq => float_value == val,
+        Op::Ne | Op::Ene => float_value != val,
+        Op::Gt => float_value > val,
+        Op::Gte => float_value >= val,
+        Op::Lt => float_value < val,
+        Op::Lte => float_value <= val,
+        _ => false,
     }
 }
